@@ -276,14 +276,16 @@ def _compact_from_dump(run):
     return found
 
 
-def _expand(ident, item) -> dict:
+def _expand(ident, item, all_strands=True) -> dict:
     if isinstance(item, dict):
         return dict(item, id=ident)
     first, second = item
     if second is None:
         return {"id": ident, "input": {"kind": "gene", "doms": _doms(first)}}
+    # quick: one same-strand and one mixed-strand combination per pair, alternating forward / reverse
+    strands = STRANDS if all_strands else (STRANDS[0::2] if ident % 2 == 0 else STRANDS[1::2])
     return {"id": ident, "input": {"kind": "pair", "up": _doms(first), "down": _doms(second),
-                                   "strands": [list(s) for s in STRANDS]}}
+                                   "strands": [list(s) for s in strands]}}
 
 
 def _all_labels():
@@ -430,7 +432,8 @@ def _validate_batches(ctx, items, batch_size):
     samples = []
     timing = ctx.notes.setdefault("timing_s", {})
     for start in range(0, len(items), batch_size):
-        batch = [_expand(start + offset, item) for offset, item in enumerate(items[start:start + batch_size])]
+        batch = [_expand(start + offset, item, not ctx.quick)
+                 for offset, item in enumerate(items[start:start + batch_size])]
         ctx.nontrivial_extra += sum(1 for case in batch if _nontrivial(case["input"]))
         mark = ctx.timer.elapsed()
         events = [ev for part in pmap(_observe_many, chunks(batch, CPUS * 4)) for ev in part]
@@ -501,7 +504,8 @@ def run(ctx):
     ctx.rule = ("TLC enumerates every domain string up to the stated length over a representative alphabet (every class of "
                 "CLASSIFICATIONS, every label the code names individually, PKS_KS with and without Trans-AT/Iterative "
                 "subtype) and every pair of short genes; each is built with build_modules_for_cds, every module reloaded via "
-                "to_json/from_json, every pair merged with combine_modules on all four strand combinations; plus seeded "
+                "to_json/from_json, every pair merged with combine_modules on all four strand combinations (quick: one "
+                "same-strand and one mixed-strand combination per pair); plus seeded "
                 "random genes/pairs of 6-14 domains over all profile names of the code (sampled, shuffled input order); "
                 "non-trivial = the input has a carrier protein and a starter/loader capable domain")
     ctx.notes["exhaustive_cases"] = exhaustive
